@@ -59,7 +59,7 @@ type xSearch struct {
 
 // act performs an action for real on the given world content (memoised).
 func (xs *xSearch) act(store uint64, env Env, tr Trans) xResult {
-	k := fmt.Sprintf("%d|%s|%s|%s|%d|%s|%d", store, tr.Kind, tr.Ctrl, tr.ID, tr.K, tr.Fault, env.NextReq)
+	k := fmt.Sprintf("%d|%s|%s|%s|%d|%s|%d|%v", store, tr.Kind, tr.Ctrl, tr.ID, tr.K, tr.Fault, env.NextReq, tr.Map)
 	if r, ok := xs.memo[k]; ok {
 		return r
 	}
@@ -73,7 +73,7 @@ func (xs *xSearch) act(store uint64, env Env, tr Trans) xResult {
 	var r xResult
 	switch tr.Kind {
 	case "step":
-		res := w.Step(tr.Ctrl, tr.ID)
+		res := w.stepT(tr)
 		r = xResult{effects: res.Effects, tokens: res.Tokens, ok: true}
 		if res.Panic != "" {
 			r.effects = 1
@@ -326,6 +326,13 @@ func (x *Explorer) ConfirmExact(target *E1State, opts ConfirmOpts) *Confirmation
 			allowedHolds[fmt.Sprintf("%s|%s|%d", t.Ctrl, t.ID, t.K)] = true
 		}
 	}
+	// map-order deviations: likewise only those of the candidate's own trace
+	mapVariants := map[string][][]uint8{}
+	for _, t := range target.Trace() {
+		if t.Kind == "step" && len(t.Map) > 0 {
+			mapVariants[t.Ctrl+"|"+t.ID] = append(mapVariants[t.Ctrl+"|"+t.ID], t.Map)
+		}
+	}
 	c := &Confirmation{}
 	if _, ok := xs.dist[x.init.content]; !ok {
 		c.Reason = "initial content not in the cone (internal error)"
@@ -553,10 +560,29 @@ func (x *Explorer) ConfirmExact(target *E1State, opts ConfirmOpts) *Confirmation
 				tr := Trans{Kind: "step", Ctrl: ctrl, ID: id, Src: src}
 				r := xs.act(n.store, n.env, tr)
 				if r.effects == 0 && !atTarget && !matters(ctrl, id) {
-					if !fifo {
+					// a step without effect still matters when it hands on work nobody else holds: a re-queue of an
+					// id that is in no queue yet (e.g. a proposal waking its predecessor)
+					fresh := false
+					for _, tk := range r.tokens {
+						it2 := tk.Ctrl + "|" + tk.ID
+						if it2 == it {
+							continue
+						}
+						found := false
+						for _, q := range n.queues {
+							for _, have := range q {
+								if have == it2 {
+									found = true
+								}
+							}
+						}
+						if !found {
+							fresh = true
+						}
+					}
+					if !fresh {
 						continue
 					}
-					continue
 				}
 				q := n.queues
 				var pops []Trans
@@ -578,6 +604,13 @@ func (x *Explorer) ConfirmExact(target *E1State, opts ConfirmOpts) *Confirmation
 					n = &pnode{store: saveN.store, queues: q, env: saveN.env, parent: saveN.parent, via: saveN.via, depth: saveN.depth, held: saveN.held}
 				}
 				add(tr, r, n.env)
+				for _, mv := range mapVariants[it] {
+					mt := tr
+					mt.Map = mv
+					if mr := xs.act(n.store, n.env, mt); mr.effects > 0 {
+						add(mt, mr, n.env)
+					}
+				}
 				if n.env.Held == "" && n.env.Holds < sc.HoldBudget && r.effects > 0 {
 					for k := 1; k < 40; k++ {
 						ht := Trans{Kind: "hold", Ctrl: tr.Ctrl, ID: tr.ID, K: k, Src: tr.Src}
@@ -871,7 +904,7 @@ func (x *Explorer) runExact(sched []Trans, drain bool, beforeMove func(i int, t 
 					afterMove(n, t, &cres)
 				}
 			} else {
-				res := w.Step(t.Ctrl, t.ID)
+				res := w.stepT(t)
 				queues = enqueue(QExact, dequeue(queues, t), res.Tokens)
 				if afterMove != nil {
 					afterMove(n, t, &res)
